@@ -146,11 +146,12 @@ def step (s : S) (line : String) : S × String :=
               match argBytes ws "abc" with
               | some abc => fin ("ok " ++ hexA (codes.map fun i => abc.getD i 0)) r'
               | none => (s, "bad-op")
-      else if op == "ishuffle" || op == "ireverse" then
+      else if op == "ishuffle" || op == "ireverse" || op == "dshuffle" || op == "fshuffle" || op == "lshuffle" ||
+              op == "dreverse" || op == "freverse" || op == "lreverse" || op == "vcreverse" then
         let v : Array Int := (if (arg? ws "v").getD "-" == "-" then [] else (commaFields ((arg? ws "v").getD "")).filterMap String.toInt?).toArray
         let showV (o : Array Int) : String := if o.isEmpty then "ok -" else "ok " ++ ",".intercalate (o.toList.map toString)
-        if op == "ishuffle" then let (o, r') := cShuffle v r; fin (showV o) r'
-        else (s, showV (reverse ip v (if ip then v else Array.replicate v.size (-777)) 0 v.size))
+        if op == "ishuffle" || op == "dshuffle" || op == "fshuffle" || op == "lshuffle" then let (o, r') := cShuffle v r; fin (showV o) r'
+        else (s, showV (reverse ip v (if ip then v else Array.replicate v.size (if op == "vcreverse" then 0x77 else -777)) 0 v.size))
       else if op == "msashuffle" || op == "bootstrap" then
         match hexRows ws "rows" with
         | some rows =>
@@ -180,7 +181,12 @@ def step (s : S) (line : String) : S × String :=
           | none => none
           | some v => if v == "none" then none else let f := commaFields v; if f.length == nseq then some f.toArray else none
         let keys := ["rows", "names", "wgt", "sqlen", "acc", "desc", "ss", "sa", "pp", "gs", "gr"]
-        let arrays : Array (Array String) := (keys.filterMap get).toArray
+        -- the length arrays exist iff the annotation does (harness fills sslen[i]=1000+i, salen 2000+i, pplen 3000+i); a partially present second GS tag
+        let lens (k : String) (b : Nat) : Option (Array String) := (get k).map fun _ => ((List.range nseq).map fun i => toString (b + i)).toArray
+        let gs2 : Option (Array String) := match get "gs2" with
+          | some a => if a.any (· != "~") then some a else none
+          | none => none
+        let arrays : Array (Array String) := ((keys.filterMap get) ++ [lens "ss" 1000, lens "sa" 2000, lens "pp" 3000, gs2].filterMap id).toArray
         let (o, r') := permuteSeqOrder arrays nseq r
         let rowStr (i : Nat) : String := "/".intercalate (o.toList.map fun a => a.getD i "?")
         fin ("ok " ++ (if nseq == 0 then "-" else ";".intercalate ((List.range nseq).map rowStr)) ++ " index=ok") r'
